@@ -8,6 +8,7 @@ ItemsQ == {F(1,1,<<97>>), F(2,0,<<1>>), F(0,1,<<2>>), F(9,1,<<7>>), F(8,1,<<3,23
 ItemsT == ItemsQ \cup {F(10,1,<<>>), F(1,1,<<255>>), F(8,1,<<3,237>>), Masked(F(2,1,<<>>))}
 CfgIdle == [poll |-> 5, ping_rate |-> 0, ping_timeout |-> 0, close_timeout |-> 0, auto_pong |-> TRUE]
 CfgTimers == [poll |-> 5, ping_rate |-> 5, ping_timeout |-> 5, close_timeout |-> 5, auto_pong |-> TRUE]
+CfgPingTimeoutOnly == [poll |-> 5, ping_rate |-> 5, ping_timeout |-> 5, close_timeout |-> 0, auto_pong |-> TRUE]
 CfgCloseOnly == [poll |-> 5, ping_rate |-> 0, ping_timeout |-> 0, close_timeout |-> 5, auto_pong |-> TRUE]
 
 \* the design satisfies the property: in every reachable state the observation prefix is admissible,
